@@ -97,7 +97,9 @@ def run(ctx):
         "factor and on all vault balances; the revision counters of the revertible buffer (advanced by every transfer-in / "
         "transfer-out pair) are excluded, so the market accounts are not byte-identical after a soft failure",
         "the executor of execute_* / close_* is loaded writable like a transaction fee payer (the programs pay the execution fee to it)",
-        "a closed action address is not created again (that would be a new action)"]
+        "a closed action address is not created again (that would be a new action)",
+        "the keeper claims 100 000 of the 300 000 execution lamports per execution, so that a second execution of an already "
+        "terminal action would be payable (and is then judged by ExecOnce / TerminalKept) instead of failing on the fee"]
     return ctx.finish("model_checking",
                       "distinct = distinct (kind, abstract pre-state, operation, actor, mode) executed through the real "
                       "instructions; every operation incl. the ones the specification rejects is attempted from every "
